@@ -78,7 +78,10 @@ func (s bitmap32) Remove(value uint32) {
 func (s bitmap32) Xor(provider Provider[uint32]) {
 	switch typedProvider := provider.(type) {
 	case bitmap32:
-		s.bitmap.Xor(typedProvider.bitmap)
+		// roaring's in-place Xor of an array container with a bitmap container computes the result inside the
+		// operand's container and adopts it, which changes the operand and leaves both bitmaps sharing state.
+		// Xor against a private copy, as bitmap64 does.
+		s.bitmap.Xor(typedProvider.bitmap.Clone())
 
 	case Duplex[uint32]:
 		providerCopy := roaring.New()
